@@ -261,6 +261,13 @@ static void explore_job(const Job& job, int shard, int nshards, const hz::Args& 
 
 static std::vector<Job> jobs_for(const hz::Args& a, std::vector<Harness>& fine, std::vector<Harness>& coarse) {
   std::vector<Job> jobs;
+  if (a.has("--race-pass")) {
+    // ThreadSanitizer build under the scheduler: same schedules, lower bounds (TSan is the oracle here)
+    for (auto& h : fine) jobs.push_back({&h, false, a.thorough() ? 3 : 2});
+    for (auto& h : coarse) jobs.push_back({&h, true, -1});
+    for (auto& h : fine) if (h.id == "H1" || h.id == "H5") { Job j{&h, false, a.thorough() ? 2 : 1}; j.cold = true; jobs.push_back(j); }
+    return jobs;
+  }
   const int bound = a.thorough() ? 5 : 3;
   for (auto& h : fine) {
     int b = bound;
